@@ -753,7 +753,11 @@ func (x *CreateMessageWithToolsParams) SetProgressToken(t any) { setProgressToke
 // has multiple content blocks, since SamplingMessage only supports one.
 func (p *CreateMessageWithToolsParams) toBase() (*CreateMessageParams, error) {
 	var msgs []*SamplingMessage
-	for _, m := range p.Messages {
+	for i, m := range p.Messages {
+		if m == nil {
+			// "messages":[null] decodes to a nil element.
+			return nil, fmt.Errorf("message %d is null", i)
+		}
 		if len(m.Content) > 1 {
 			return nil, fmt.Errorf("message has %d content blocks; use CreateMessageWithToolsHandler to support multiple content", len(m.Content))
 		}
